@@ -44,7 +44,8 @@ def xml_legal(ch):
 
 
 def member_xml(m, idx):
-    out = ['      <memberdef kind="%s" id="m_%d" prot="public" static="no">' % (m.get("kind", "function"), idx)]
+    out = ['      <memberdef kind="%s" id="m_%d" prot="public" static="%s">' %
+           (m.get("kind", "function"), idx, "yes" if m.get("static") else "no")]
     out.append("        <type>void</type>")
     if m.get("argsstring", True):
         out.append("        <argsstring>(%s)</argsstring>" %
@@ -92,13 +93,28 @@ def member_xml(m, idx):
 
 
 def class_xml(c):
+    """members are filed the way Doxygen files them: one <sectiondef> per kind (`m["section"]`: public-func,
+    public-static-func, user-defined for members of a named group, public-attrib, ...), sections in order of
+    first appearance, members in table order inside their section"""
     out = ['<?xml version="1.0" encoding="UTF-8" standalone="no"?>', "<doxygen>",
            '  <compounddef id="%s" kind="class" language="C++" prot="public">' % c["refid"],
-           "    <compoundname>%s</compoundname>" % xml_text(c["name"]),
-           '    <sectiondef kind="public-func">']
+           "    <compoundname>%s</compoundname>" % xml_text(c["name"])]
+    sections = []
     for i, m in enumerate(c["members"]):
-        out.append(member_xml(m, i))
-    out += ["    </sectiondef>", "  </compounddef>", "</doxygen>", ""]
+        sec = m.get("section", "public-func")
+        if sec not in sections:
+            sections.append(sec)
+    if not sections:
+        sections = ["public-func"]
+    for sec in sections:
+        out.append('    <sectiondef kind="%s">' % sec.split("#")[0])
+        if sec.startswith("user-defined"):
+            out.append("      <header>%s</header>" % xml_text(sec.partition("#")[2] or "Group"))
+        for i, m in enumerate(c["members"]):
+            if m.get("section", "public-func") == sec:
+                out.append(member_xml(m, i))
+        out.append("    </sectiondef>")
+    out += ["  </compounddef>", "</doxygen>", ""]
     return "\n".join(out).encode("utf-8")
 
 
